@@ -133,7 +133,16 @@ func c01RecordSite(p *Prog, r *Report, fn *ssa.Function, f map[string]*ssa.Store
 		if !ok {
 			return
 		}
-		if b, ok := call.Call.Value.(*ssa.Builtin); ok && b.Name() == "copy" && call.Call.Args[0] == data {
+		isData := call.Call.Args[0] == data
+		if ld, isLd := call.Call.Args[0].(*ssa.UnOp); isLd && ld.Op == token.MUL {
+			// copy(record.data, ...): the field just set, read back
+			if fa, isFA := ld.X.(*ssa.FieldAddr); isFA {
+				if dfa, ok2 := f["data"].Addr.(*ssa.FieldAddr); ok2 && fa.X == dfa.X && fa.Field == dfa.Field && InstrDominates(f["data"], ld) {
+					isData = true
+				}
+			}
+		}
+		if b, ok := call.Call.Value.(*ssa.Builtin); ok && b.Name() == "copy" && isData {
 			ncopies++
 			src, _ = call.Call.Args[1].(*ssa.Slice)
 		}
